@@ -101,8 +101,8 @@ class Constant(ModelNode):
         def sub_(x, y):
             return x.replace(y, " ")
 
-        for symbol in six.reduce(sub_, "()+-", self.value).split():
-            if not symbol.isdigit():
+        for symbol in six.reduce(sub_, "()+-*/<>|", self.value).split():
+            if not symbol[0].isdigit():
                 yield symbol
 
 
@@ -318,6 +318,8 @@ class Enum(_Container):
     def dependencies(self):
         for member in self.members:
             yield member.name
+            for dependency in member.dependencies():
+                yield dependency
 
 
 class _SerializableContainer(_Container, _Serializable):
@@ -393,7 +395,8 @@ def topological_sort(nodes):
     def model_sort_rotate():
         node = nodes[index]
         for dep in node.dependencies():
-            if dep not in known and dep in available:
+            dep = enumerator_owners.get(dep, dep)
+            if dep != node.name and dep not in known and dep in available:
                 found_index = find_first_dep(dep, index + 1)
                 if found_index:
                     nodes.insert(index, nodes.pop(found_index))
@@ -402,6 +405,9 @@ def topological_sort(nodes):
 
     known = set(x + y for x in "uir" for y in ["8", "16", "32", "64"])
     available = set(node.name for node in nodes)
+    """ an enumerator is delivered by the enum that defines it """
+    enumerator_owners = dict((member.name, node.name) for node in nodes if isinstance(node, Enum)
+                             for member in node.members)
     for index in range(len(nodes)):
         while model_sort_rotate():
             pass
